@@ -192,6 +192,7 @@ func init() {
 		r.Decides("float→integer conversions are preceded by a sound integrality+range test on the float; integer TypedValues only reach leaves through the range-checking parser; every parse error is tested and returned; kind tests precede the per-kind dispatch in both decoders; no sign-changing conversions.",
 			"range correctness for every width at value level; re-render fidelity.")
 		ruleFloat2Int(c, r)
+		ruleDecimalLexical(c, r)
 		ruleDecodeDiscipline(c, r)
 		ruleEmptyExact(c, r)
 		ruleEnumLib(c, r)
